@@ -111,7 +111,7 @@ func c04Run(B, K int, verbose bool) {
 	}
 }
 
-func VerifC04_stream_quick()    { c04Run(9, 3, false) }
+func VerifC04_stream_quick()    { c04Run(10, 3, false) }
 func VerifC04_stream_thorough() { c04Run(12, 4, true) }
 
 func VerifC04_tiny() { c04Run(5, 2, false) }
